@@ -70,22 +70,22 @@ func run(e *core.Env) {
 				t.first = append([]byte(nil), d...)
 				t.sbLen = int(d[48])
 				if ttl >= t.initTTL {
-					set("ttl-not-reduced-on-first-hop", "frame %s left its origin with TTL %d, initial %d", t.token, ttl, t.initTTL)
+					set("ttl-not-reduced-on-first-hop", "frame %q left its origin with TTL %d, initial %d", t.token, ttl, t.initTTL)
 				}
 			} else {
 				if ttl >= t.lastTTL {
-					set("ttl-not-strictly-decreasing", "frame %s crossed %s->%s with TTL %d after a crossing with TTL %d", t.token, c.From.Name, c.To.Name, ttl, t.lastTTL)
+					set("ttl-not-strictly-decreasing", "frame %q crossed %s->%s with TTL %d after a crossing with TTL %d", t.token, c.From.Name, c.To.Name, ttl, t.lastTTL)
 				}
 				// Byte preservation: everything except TTL, flow flags, switch block.
 				if len(d) != len(t.first) {
-					set("frame-length-changed-by-forwarding", "frame %s: %d bytes at first crossing, %d at %s->%s", t.token, len(t.first), len(d), c.From.Name, c.To.Name)
+					set("frame-length-changed-by-forwarding", "frame %q: %d bytes at first crossing, %d at %s->%s", t.token, len(t.first), len(d), c.From.Name, c.To.Name)
 				} else {
 					for i := range d {
 						if i == 1 || i == 2 || (i >= 49 && i < 49+t.sbLen) {
 							continue
 						}
 						if d[i] != t.first[i] {
-							set("byte-outside-ttl-flow-switchblock-changed", "frame %s: byte %d changed from %02x to %02x at %s->%s (switch block is bytes 49..%d)",
+							set("byte-outside-ttl-flow-switchblock-changed", "frame %q: byte %d changed from %02x to %02x at %s->%s (switch block is bytes 49..%d)",
 								t.token, i, t.first[i], d[i], c.From.Name, c.To.Name, 48+t.sbLen)
 							break
 						}
@@ -94,7 +94,7 @@ func run(e *core.Env) {
 			}
 			t.lastTTL = ttl
 			if t.crossing > t.initTTL-1 {
-				set("more-crossings-than-initial-ttl-minus-one", "frame %s (initial TTL %d) crossed %d links", t.token, t.initTTL, t.crossing)
+				set("more-crossings-than-initial-ttl-minus-one", "frame %q (initial TTL %d) crossed %d links", t.token, t.initTTL, t.crossing)
 			}
 		}
 	}
@@ -268,6 +268,46 @@ func run(e *core.Env) {
 				dst = ghost.IP
 			}
 			labelSwitched := tp.Chance(1, 2)
+			if !labelSwitched && tp.Chance(1, 3) {
+				// A frame the shipped code originates itself, for a router nobody knows (so it is
+				// signed without a session), sent into tables that lead it round in circles: it
+				// starts with the TTL every originated frame has and crosses at most 31 links.
+				stranger := ident.Get(ident.Routable, 50+k)
+				for j, nb := 0, 2+tp.Intn(2*n); j < nb; j++ {
+					i := tp.Intn(n)
+					nd := ms.Nodes[i]
+					if len(ms.Adj[i]) == 0 {
+						continue
+					}
+					nh := ms.Nodes[ms.Adj[i][tp.Intn(len(ms.Adj[i]))]]
+					path := m.SwitchPath{Hops: []m.SwitchHop{
+						{Router: nd.IP, ForwardLabel: ms.LabelAt(i, ms.ByIP[nh.IP]), Delay: uint16(tp.Intn(5))},
+						{Router: nh.IP, ForwardLabel: m.SwitchLabel(1 + tp.Intn(127)), ReturnLabel: m.SwitchLabel(1 + tp.Intn(127))},
+						{Router: stranger.IP, ReturnLabel: m.SwitchLabel(1 + tp.Intn(127))},
+					}}
+					path.CalculateTotals()
+					_, _ = nd.Router.Table().AddRoute(m.RoutingTableEntry{DstIP: stranger.IP, NextHop: nh.IP, Path: path, Source: m.RouteSourceGossip, Expires: time.Now().Add(time.Hour)})
+				}
+				sa, da := A.IP.As16(), stranger.IP.As16()
+				t.token = append(append([]byte(nil), sa[:]...), da[:]...) // source and destination fields, adjacent in the header
+				t.initTTL = 32
+				_, _, _ = A.Router.PingPong.Send(stranger.IP, false, 0)
+				e.Probe("frame_originated_by_the_router_for_an_unknown_destination")
+				simnet.Wait()
+				for steps := 0; steps < 4000; steps++ {
+					p := ms.Net.ChooseFIFO(tp)
+					if p == nil {
+						break
+					}
+					ms.Net.Deliver(p)
+					e.Step()
+				}
+				if t.crossing >= 10 {
+					e.Probe("frame_crossed_10_or_more_links")
+				}
+				finish("phase B, originated frame")
+				continue
+			}
 			if labelSwitched {
 				// Forged switch block: a random walk over real labels, possibly
 				// cyclic, possibly with labels nobody has, possibly unterminated.
